@@ -25,11 +25,22 @@ def validate_traces(ctx, specdir, module, cfg, trace_files, merged_name="traces.
     Returns (records, bad, last TLC result) where bad maps 1-based trace index -> set of invariant names."""
     shard_records = int(os.environ.get("VERIF_SHARD_RECORDS", shard_records))
     recs = []
+    dropped = 0
     for f in trace_files:
-        with open(f) as fh:
+        with open(f, errors="replace") as fh:
             for line in fh:
-                if line.strip():
-                    recs.append(line)
+                if not line.strip():
+                    continue
+                try:
+                    json.loads(line)
+                except ValueError:
+                    # a driver whose descriptors were closed or reused behind its back can leave a torn line: not a record
+                    dropped += 1
+                    continue
+                recs.append(line if line.endswith("\n") else line + "\n")
+    if dropped:
+        log("%d unreadable trace line(s) dropped" % dropped)
+        ctx.dropped_trace_lines = getattr(ctx, "dropped_trace_lines", 0) + dropped
     if not recs:
         raise NoVerdict("no traces recorded")
     shards, cur, size = [], [], 0
